@@ -141,6 +141,10 @@ type rtTarget struct {
 	high      int64 // last accepted exclusive high watermark (0: none)
 	lastAck   int64 // last inclusive low watermark this target sent (0: none)
 	onSend    func(t *rtTarget, resp *adminservice.StreamWorkflowReplicationMessagesResponse)
+	// every message handed to this stream, with its high watermark at that moment (grpc: a message
+	// must not be modified after SendMsg, and two streams must not be handed one mutable message)
+	sent     []*adminservice.StreamWorkflowReplicationMessagesResponse
+	sentHigh []int64
 }
 
 func (t *rtTarget) Recv() (*adminservice.StreamWorkflowReplicationMessagesRequest, error) {
@@ -171,6 +175,8 @@ func (t *rtTarget) Send(resp *adminservice.StreamWorkflowReplicationMessagesResp
 		}
 	}
 	t.msgs++
+	t.sent = append(t.sent, resp)
+	t.sentHigh = append(t.sentHigh, resp.GetMessages().GetExclusiveHighWatermark())
 	if m := resp.GetMessages(); m != nil {
 		verifObserve("message-to-target", t.idx, len(m.ReplicationTasks), m.ExclusiveHighWatermark)
 	}
